@@ -238,14 +238,15 @@ func runMetricsCase(name string, t Metrics, class int, optsName string, thorough
 }
 
 func metricsPhase(thorough bool) {
-	nClean, nTrig := 1200, 120
+	nClean, nTrig := 1600, 120
 	if thorough {
 		nClean, nTrig = 25000, 2500
 	}
 	r := rng.FromEnv(1700)
-	// the clean profile: every float class in values (NaN payloads, -0.0, inf, subnormal); NaN and -0.0
-	// are fine in key positions since repo commits 05846e0 / 59db810, except -0.0 among histogram bounds
-	g := &G{r: r, allowArrays: true, allowNegZero: true, allowNaNAttr: true, nanBounds: true}
+	// the clean profile: every float class everywhere (NaN payloads, -0.0, inf, subnormal; also in key
+	// positions and histogram bounds, since repo commits 05846e0 / 59db810 / 7828c58), nested maps of any
+	// size (since 571960a)
+	g := &G{r: r, allowArrays: true}
 	for i := 0; i < nClean; i++ {
 		g.big = thorough && i%10 == 0
 		t := g.metrics()
@@ -401,14 +402,14 @@ func runTracesCase(name string, t Traces, class int, opts pkg.WriterOptions) {
 }
 
 func tracesPhase(thorough bool) {
-	nClean, nTrig := 1500, 150
+	nClean, nTrig := 1900, 150
 	if thorough {
 		nClean, nTrig = 30000, 3000
 	}
 	r := rng.FromEnv(1800)
-	// NaN attribute values are part of the clean traces profile: span, event and link attributes are
-	// never used as keys (resource and scope attributes are restricted to the kinds CmpVal implements)
-	g := &G{r: r, allowArrays: true, allowNaNAttr: true, allowNegZero: true}
+	// the clean traces profile: attribute values of every kind and float class, nested maps of any size;
+	// resource and scope attributes are restricted to the kinds otlptools.CmpVal implements
+	g := &G{r: r, allowArrays: true}
 	for i := 0; i < nClean; i++ {
 		g.big = thorough && i%10 == 0
 		t := g.traces()
